@@ -1,5 +1,5 @@
 """property id -> units and reporting metadata (single source for MANIFEST.json)"""
-from units import specificity, best, fragments, static_list, hashing
+from units import specificity, best, fragments, static_list, hashing, vptrs
 
 A_TABLES = ('compiler::build_dispatch_tables (grouping of classes by applicability mask, strides, recursion order) '
             'and assign_slots / assign_tree_slots / assign_lattice_slots are NOT under contract '
@@ -61,13 +61,21 @@ PROPS = {
         'assumptions': [],
     },
     'C05': {
-        'units': [hashing.jobs],
+        'units': [hashing.jobs, vptrs.jobs],
         'level': 'proof',
         'technique': 'CBMC/DFCC function and loop contracts on the extracted hash search, lookups and publish_vptrs; bit-precise lemmas for the multiply-shift',
         'level_text': 'TBD',
         'level_note': 'TBD',
         'design_ref': 'DESIGN.md section 6 C05',
         'unverified': [],
+        'assumptions': [],
+    },
+    'C01': {
+        'units': [specificity.jobs, best.jobs, fragments.jobs, hashing.jobs, vptrs.jobs],
+        'level': 'proof',
+        'technique': 'TBD', 'level_text': 'TBD', 'level_note': 'TBD',
+        'design_ref': 'DESIGN.md section 6 C01',
+        'unverified': [A_TABLES, A_AUGMENT],
         'assumptions': [],
     },
 }
